@@ -326,3 +326,23 @@ pub fn run_b(rep: &Report, tier: Tier) {
     rep.extra("part_b_calls_where_rowwise_greedy_differs_from_optimum", json!(greedy_differs.load(Ordering::Relaxed)));
     rep.extra("part_b_continuations", json!(continued.load(Ordering::Relaxed)));
 }
+
+/// Schedule part: the association of the batch SORT tracker under pipelined use (results retrieved by consumer
+/// threads while the next batch is submitted). Every scene's records must be those of the simple tracker, i.e.
+/// every detection continues exactly the track the gated maximum-weight assignment on the up-to-date store gives
+/// it - a store that lags one batch behind shows as a detection that starts a track although it passes the gate.
+pub fn run_schedules(rep: &Report, tier: Tier) {
+    use super::c06;
+    let mut scen = vec![];
+    let slice = tier.pick(2.0f64, 60.0f64);
+    for (vs, variant, fine, max_bound) in [(1usize, 1usize, false, tier.pick(2usize, 4usize)), (2, 1, false, tier.pick(2, 4)), (2, 0, false, tier.pick(2, 4)), (2, 1, true, tier.pick(1, 2))] {
+        let mut cfg = TrkCfg::new(Kind::BatchSort);
+        cfg.shards = 1;
+        cfg.voting_shards = vs;
+        cfg.max_idle = 2;
+        let bs = c06::batches(variant);
+        let reference = c06::simple_reference(&cfg, &bs);
+        scen.push(c06::explore_batch(rep, "association", &cfg, variant, 1, fine, max_bound, slice, &|o| c06::judge(o, &bs, &reference).map_err(|(k, w)| (format!("association/pipelined-{}", k.replace('/', "-")), w))));
+    }
+    rep.extra("schedule_part", json!(scen));
+}
